@@ -179,7 +179,7 @@ def run_impl(t, universe, ptr, chain, lit, script, vt=V.VT_INT):
     if ptr is not None:
         bm = {'int': str(ptr)}
     else:
-        bm = [{'prim': 'Elt', 'args': [V.value_micheline(k), vt.micheline(z)]} for k, z in lit]
+        bm = [{'prim': 'Elt', 'args': [m, vt.micheline(z)]} for m, (k, z) in zip(V.literal_michelines(t, [k for k, _ in lit]), lit)]
     storage = {'prim': 'Pair', 'args': [bm, []]}
     src = contract_src(t, script, vt)
     ok, res = lib.call(Interpreter.run_code, {'prim': 'Unit'}, storage, michelson_to_micheline(src), shell=shell, block_id='head')
@@ -669,13 +669,16 @@ def run(ctx: lib.Ctx) -> None:
     # ---- big_map literals in the storage: accepted iff the keys are strictly increasing (duplicate keys with
     #      ascending / equal / descending values, adjacent swaps, valid ones)
     lcases, lmeta = [], []
-    for _ in range(ctx.n(50, 600)):
+    directed_lits = list(V.notation_duplicates(rng))
+    for lidx in range(-len(directed_lits), ctx.n(50, 600)):
         t, pool, _ptr, _chain, _lit, _script, vt = gen_case(rng, 3)
         if vt.ticket:
             vt = rng.choice(V.VALUE_TYPES[:6])
-        ks = sorted([v for v in pool if rng.random() < 0.7], key=V.spec_key(t))
+        if lidx < 0:
+            t, pool = directed_lits[lidx][0], [directed_lits[lidx][1][0]]
+        ks = sorted([v for v in pool if rng.random() < 0.7], key=V.spec_key(t)) if lidx >= 0 else list(pool)
         ents = [(k, vt.gen(rng)) for k in ks]
-        k = rng.random()
+        k = rng.random() if lidx >= 0 else 0.0
         shape = 'sorted'
         if ents and k < 0.55:
             i = rng.randrange(len(ents))
@@ -684,7 +687,7 @@ def run(ctx: lib.Ctx) -> None:
             hi = rng.randrange(lo + 1, n)
             a, b = rng.choice([(lo, hi), (lo, hi), (lo, lo), (hi, lo)])
             ents[i:i + 1] = [(ents[i][0], a), (ents[i][0], b)]
-            shape = 'duplicate:' + ('ascending' if a < b else 'equal' if a == b else 'descending')
+            shape = 'duplicate:' + ('ascending' if a < b else 'equal' if a == b else 'descending') + (':other-notation' if V.alt_micheline(t, ents[i][0]) is not None else '')
         elif len(ents) >= 2 and k < 0.7:
             i = rng.randrange(len(ents) - 1)
             ents[i], ents[i + 1] = ents[i + 1], ents[i]
